@@ -93,7 +93,10 @@ def run_connection(scn, workdir):
 
     dev = SimDevice(plat(kind), outputs=outputs, host=scn.get("host", "router1"))
     dev.start()
-    d = make_driver(kind, stack, dev, tuple(scn.get("policy", ("whole",))))
+    dkw = {}
+    if scn.get("driver_markers") is not None:           # the driver-level marker set given at construction
+        dkw["failed_when_contains"] = list(scn["driver_markers"])
+    d = make_driver(kind, stack, dev, tuple(scn.get("policy", ("whole",))), **dkw)
     run = Runner(stack)
     navs = []
     nav_open = [0]                        # set when the device went silent inside acquire_priv
@@ -213,6 +216,8 @@ def target_mode(kind, op):
 def call_markers(kind, op, o):
     f = op["fwc"]
     if f is None:
+        if op.get("dflt") is not None:                  # the scenario's own driver-level set
+            return list(op["dflt"])
         return [] if kind == "generic" else o["markers_default"]
     return [f] if isinstance(f, str) else list(f)
 
@@ -466,6 +471,8 @@ def case_term(kind, stack, op, o):
     f = op["fwc"]
     fwc = "FNone" if f is None else ("(FStr %s)" % u8(f) if isinstance(f, str) else "(FList %s)" % coq_list([u8(x) for x in f]))
     drv = "gen_drv_%s_%s" % ("network" if kind == "generic" else kind, stack)
+    if op.get("dflt") is not None:
+        drv = "(mkD (d_abort %s) (d_levels %s) (d_default_priv %s) %s)" % (drv, drv, drv, coq_list([u8(x) for x in op["dflt"]]))
     ver = "(mkV gen_sc_guard_empty_%s gen_guard_cfg)" % stack
     evs = coq_list(["(EW %s)" % coq_bytes(x) if k == "w" else "(ENav %s)" % u8(x) for k, x in o["events"]])
     merged = "None" if o["merged"] is None else "(Some (%s, %s))" % (coq_bool(o["merged"][0]), u8(o["merged"][1]))
@@ -598,6 +605,7 @@ def gen_op(rng, kind, trans, force=None):
         fwc = rng.choice(["", ["", "ERR"]])
     if "fwc" in force:
         fwc = force["fwc"]
+    outgen = force.get("outgen")
     eff = fwc if fwc is not None else ([] if kind == "generic" else vendor)
     eff = [eff] if isinstance(eff, str) else list(eff)
     # outputs: failing positions
@@ -607,6 +615,9 @@ def gen_op(rng, kind, trans, force=None):
     for i, l in enumerate(lines):
         if not dev_key(l):
             outs.append("")
+            continue
+        if outgen is not None:
+            outs.append(outgen())
             continue
         if i in failpos:
             cands = [m for m in eff if m] or ["ERR"]
@@ -655,6 +666,216 @@ def fix_eager(op):
     ls = op_lines(op)
     if ls and not dev_key(ls[-1]):
         op["eager"] = False
+
+
+# ------------------------------------------------------------------------------------------------
+# failure-marker sets as TEXT: markers over an alphabet with every regular-expression / glob metacharacter, vendor
+# complaints in full, markers that are prefixes / suffixes / superstrings of each other, the empty marker, very long
+# markers; outputs that carry (i) a marker literally, (ii) a string that a pattern reading of the marker accepts
+# although the marker is not in it, (iii) near misses.  Expectation is always literal containment (planned()).
+# ------------------------------------------------------------------------------------------------
+META = "\\^$.|?*+()[]{}"
+MARKER_ALPHA = list(META) * 2 + list("abAB01 %'\"-_:/,!<=&~") + ["\u00e9", "\u00df", "\u20ac"]
+MARKER_ATOMS = list(META) + ["(", "[", "\\", "*", "+", "?", "{", ")", "a|", "|", "(?", "[^", "a{2", ".*", "^$", "[]", "()", "\\d", "x\\",
+                             "*a", "+a", "?a", "a**", "(?P<", "[a-", "{1,", "(a|", "\\1", "(?i)e"]
+MARKER_TEXTS = sorted({m for ms in VENDOR_ERRORS.values() for m in ms}) + [
+    "error: syntax error, expecting <command>.", "Error: (config) [line 3]: bad value {x}", "cost $5 + tax?", "C:\\temp\\x.cfg not found",
+    "a.b.c.d/32", "*** failed ***", "what?", "(y/n)", "[confirm]", "% Invalid input detected at '^' marker", "^", "'^'",
+    "Aborted: Permission denied (uid=0)", "%Error: [OK]?", "rc=1|2", "1+1=2", "^% Invalid", "marker.$"]
+MARKER_PATTERNS = ["ERR.*", "^ERR", "ERR$", "E?RR", "ER+", "a|b", "[Ee]rror", "err(or)?", "\\d+ errors", "fail{2}", "x*", ".", "..", "\\.",
+                   "[a-z]", "(a)(b)", "\\berr", "bad.value", "Inv.lid", "% *Invalid", "[%] Invalid", "error|fail", "error|", "|fail",
+                   "fail*", "fail?", "E[R]R", "(ERR)", "ERR{1}", "\\s", "\\w+", "[^x]", "e.r", "ok|ERR"]
+LONG_MARKERS = {"p": 0.03, "sizes": [260, 300, 420]}      # (reading long cases into Coq is what costs: the thorough tier has more and longer ones)
+OUT_PRE = ["", "", "a", "line before\n  ^ ", "r1: ", "x"]
+OUT_POST = ["", "", "z", " (detail)\nline after", ".", " !", "\nnext line"]
+LINE_ENDS_OK = ".)!'\""        # (besides letters and digits) no vendor's prompt ends like this
+
+
+def gen_marker(rng):
+    k = rng.random()
+    if k < 0.28:
+        m = "".join(rng.choice(MARKER_ALPHA) for _ in range(rng.randint(1, 8)))
+        if not any(c in META for c in m):
+            i = rng.randint(0, len(m))
+            m = m[:i] + rng.choice(META) + m[i:]
+        return m
+    if k < 0.42:
+        return rng.choice(MARKER_ATOMS)
+    if k < 0.64:
+        return rng.choice(MARKER_TEXTS)
+    if k < 0.86:
+        return rng.choice(MARKER_PATTERNS)
+    if k < 1.0 - LONG_MARKERS["p"]:
+        return rng.choice(["\u00e9*", "\u00fc.\u00df", "\u20ac5.00", "(\u4e2d)", "\u0130?", "\u00f1|\u00d1", "[\u00e9\u00e8]"])
+    n = rng.choice(LONG_MARKERS["sizes"])
+    body = "".join(rng.choice(MARKER_ALPHA) if rng.random() < 0.15 else rng.choice("abcdefgh01 ") for _ in range(n))
+    return "E" + body + "!"
+
+
+def gen_marker_set(rng, want_list=False):
+    """a per-call (str or list) or driver-level (list) marker set"""
+    base = [gen_marker(rng) for _ in range(rng.choice([1, 1, 1, 2, 2, 3]))]
+    m = base[0]
+    if len(m) >= 2 and rng.random() < 0.35:
+        cut = rng.randint(1, len(m) - 1)
+        base += rng.choice([[m[:cut]], [m[cut:]], [m[:cut], m[cut:]], [m + "x"], ["x" + m], [m], [m.swapcase()], [m[:cut] + m[cut + 1:]]])
+    if rng.random() < 0.08:
+        base.insert(rng.randint(0, len(base)), "")
+    rng.shuffle(base)
+    if not want_list and len(base) == 1 and rng.random() < 0.6:
+        return base[0]
+    return base
+
+
+def pattern_accepts(m, text):
+    """would a pattern reading of the marker (regular expression, or shell glob) find it in the text?  None: not a valid pattern.
+    Used to SHAPE outputs and to report the distribution, never to decide the property."""
+    import fnmatch
+    import re
+    import warnings
+    if len(m) > 40:
+        return False
+    try:
+        with warnings.catch_warnings():
+            warnings.simplefilter("ignore")
+            if re.search(m, text):
+                return True
+    except (re.error, RecursionError, OverflowError):
+        pass
+    try:
+        return bool(fnmatch.fnmatchcase(text, "*" + m + "*"))
+    except Exception:  # noqa
+        return False
+
+
+def lookalikes(rng, m):
+    """(accepted by a pattern reading and not literal, all structural rewrites)"""
+    c = set()
+    fill = rng.choice(["x", "Q", "7", "qq", "_"])
+    for i, ch in enumerate(m):
+        if ch == ".":
+            c.add(m[:i] + fill[0] + m[i + 1:])
+        elif ch in "?*":
+            c |= {m[:max(i - 1, 0)] + m[i + 1:], m[:i] + m[i + 1:], m[:i] + fill + m[i + 1:], m[:i] + m[max(i - 1, 0):i] * 2 + m[i + 1:]}
+        elif ch == "+":
+            c |= {m[:i] + m[max(i - 1, 0):i] * 2 + m[i + 1:], m[:i] + m[i + 1:]}
+        elif ch == "^":
+            c |= {m[:i] + m[i + 1:], m[i + 1:]}
+        elif ch == "$":
+            c |= {m[:i] + m[i + 1:], m[:i]}
+        elif ch == "|":
+            c |= {m[:i], m[i + 1:]}
+        elif ch == "\\":
+            c |= {m[:i] + m[i + 1:], m[:i] + {"d": "7", "w": "k", "s": " ", "b": ""}.get(m[i + 1:i + 2], m[i + 1:i + 2]) + m[i + 2:]}
+        elif ch == "[":
+            j = m.find("]", i + 2)
+            if j > 0:
+                c |= {m[:i] + x + m[j + 1:] for x in m[i + 1:j] if x not in "^-"}
+        elif ch == "(":
+            j = m.find(")", i)
+            if j > 0:
+                c |= {m[:i] + m[i + 1:j] + m[j + 1:], m[:i] + m[j + 2:] if m[j + 1:j + 2] == "?" else m[:i] + m[i + 1:j] * 2 + m[j + 1:]}
+        elif ch == "{":
+            j = m.find("}", i)
+            if j > 0 and m[i + 1:j].isdigit() and i > 0:
+                c.add(m[:i - 1] + m[i - 1] * min(int(m[i + 1:j]), 5) + m[j + 1:])
+    plain = "".join(ch for ch in m if ch not in META)
+    c |= {plain, m.replace(".", fill[0]), m.replace("*", fill).replace("?", fill[0])}
+    c = sorted(x for x in c if x and m not in x)
+    good = [x for x in c if pattern_accepts(m, x)]
+    return good, c
+
+
+def near_misses(rng, m):
+    i = rng.randint(0, max(len(m) - 1, 0))
+    sub = "x" if m[i:i + 1] != "x" else "y"
+    c = {m[:i] + m[i + 1:], m[:i] + sub + m[i + 1:], m.swapcase(), m[:i] + " " + m[i:], m[::-1], m[:-1], m[1:], m[:i] + m[i:i + 1] * 2 + m[i + 1:],
+         " ".join(m.split()), m.lower(), m.upper(), m[:i] + "\n" + m[i:]}
+    return sorted(x for x in c if x and x != m)
+
+
+def out_safe(o):
+    """the channel rstrips every output line and strips the whole; a line that ends like a prompt (# > $ % ~ @ : ] ...) is read as
+    one and removed (C01/C02's subject): the outputs of this stream stay away from both, so that the device's output IS the
+    response's output.  (The stream is read unsplit for the same reason: a read that ends inside a line after such a character.)"""
+    if o != o.strip():
+        return False
+    ls = o.split("\n")
+    return all(l == l.rstrip() and (not l or l[-1].isalnum() or l[-1] in LINE_ENDS_OK) for l in ls) and \
+        not any(ord(ch) < 32 and ch != "\n" for ch in o)
+
+
+def wrap_output(rng, x):
+    for pre, post in ((rng.choice(OUT_PRE), rng.choice(OUT_POST)), ("a", "z")):
+        o = pre + x + post
+        if out_safe(o):
+            return o
+    return "a" + x.replace("\n", "_") + "z"
+
+
+def marker_output(rng, M):
+    """one device output for a call whose effective marker set is M"""
+    ms = [m for m in M if m]
+    k = rng.random()
+    if not ms or k < 0.2:
+        return ok_output(rng)
+    m = rng.choice(ms)
+    if k < 0.5:
+        x = m
+    elif k < 0.8:
+        good, allc = lookalikes(rng, m)
+        pool = good if (good and rng.random() < 0.75) else (allc or near_misses(rng, m))
+        x = rng.choice(pool) if pool else m
+    else:
+        nm = near_misses(rng, m)
+        x = rng.choice(nm) if nm else m
+    return wrap_output(rng, x)
+
+
+def gen_marker_scenario(rng, trans, kind=None):
+    kind = kind or rng.choice(KINDS)
+    stack = rng.choice(["sync", "async"])
+    scn = {"kind": kind, "stack": stack, "ops": [], "policy": ["whole"]}
+    dflt = None
+    if kind != "generic" and rng.random() < 0.35:
+        dflt = [m for m in gen_marker_set(rng, want_list=True) if m] or [gen_marker(rng)]
+        scn["driver_markers"] = dflt
+    for _ in range(rng.choice([1, 1, 2])):
+        if dflt is not None and rng.random() < 0.7:
+            fwc = None
+        else:
+            fwc = gen_marker_set(rng)
+        eff = fwc if fwc is not None else dflt
+        eff = [eff] if isinstance(eff, str) else list(eff)
+        force = {"fwc": fwc, "outgen": (lambda eff=eff: marker_output(rng, eff)), "stop": rng.random() < 0.7, "eager": rng.random() < 0.15}
+        if rng.random() < 0.5:
+            force["n"] = rng.choice([2, 3, 4])
+        op = gen_op(rng, kind, trans, force)
+        if dflt is not None:
+            op["dflt"] = list(dflt)
+        scn["ops"].append(op)
+    return scn
+
+
+def marker_corpus():
+    """fixed shapes: the vendors' own complaints given in full as the per-call marker, with the device printing exactly that"""
+    out = []
+    for kind, stack in (("cisco_iosxe", "sync"), ("cisco_nxos", "async"), ("juniper_junos", "sync"), ("generic", "async")):
+        full = VENDOR_ERRORS[kind][-1] if kind != "generic" else "unknown command (try '?')"
+        for fwc in (full, [full, "never-printed"]):
+            name = "send_commands" if kind == "generic" else "send_configs"
+            out.append({"kind": kind, "stack": stack, "policy": ["whole"], "ops": [
+                {"op": name, "lines": ["set ok 1", "set bad 2", "set never 3"], "outs": ["", "set bad 2\n      ^\n" + full, ""], "fwc": fwc, "stop": True,
+                 "eager": False, "priv": ""},
+                {"op": "send_command", "lines": ["show thing"], "outs": [full[:-1]], "fwc": fwc, "stop": False, "eager": False, "priv": ""}]})
+    # a very long marker (every metacharacter in it), printed literally and with one character changed in the middle
+    big = "E" + "".join((META[i % len(META)] if i % 9 == 4 else "abcdefgh01 "[i % 11]) for i in range(400)) + "!"
+    for kind, stack in (("cisco_iosxr", "async"), ("arista_eos", "sync")):
+        out.append({"kind": kind, "stack": stack, "policy": ["whole"], "driver_markers": [big[:200] + "#", big], "ops": [
+            {"op": "send_configs", "lines": ["set ok 1", "set near 2", "set bad 3", "set never 4"],
+             "outs": ["ok", "x" + big[:200] + "y" + big[201:] + "z", "x" + big + "z", ""], "fwc": None, "dflt": [big[:200] + "#", big], "stop": True,
+             "eager": False, "priv": ""}]})
+    return out
 
 
 def gen_scenario(rng, trans, kind=None, stack=None):
@@ -780,6 +1001,148 @@ def exhaustive_small(kind, stack, maxlen):
 
 
 # ------------------------------------------------------------------------------------------------
+# the response layer alone: Response / MultiResponse of the real code on (marker set, output) pairs without a device in
+# between, so that outputs may be anything (marker at the very edge, blank edges, newlines inside markers, empty output)
+# ------------------------------------------------------------------------------------------------
+DIRECT_HEADER = """From Verif Require Import Bytes Response.
+Definition dcase := (fwc * list bytes * list bool * bool)%type.
+Definition bools_eq (a b : list bool) : bool :=
+  (length a =? length b)%nat && forallb (fun p => Bool.eqb (fst p) (snd p)) (combine a b).
+Definition dchk (c : dcase) : bool :=
+  let '(f, results, oflags, omulti) := c in
+  let rs := map (fun res => record_response (new_response [120] f) res) results in
+  bools_eq (map r_failed rs) oflags && Bool.eqb (multi_failed rs) omulti.
+"""
+DIRECT_HEADER += "".join("Definition xb%d : N := %d.\n" % (i, i) for i in range(256))
+
+
+def gen_direct(rng):
+    k = rng.random()
+    if k < 0.05:
+        f = rng.choice([None, [], "", [""]])
+    else:
+        f = gen_marker_set(rng)
+        if rng.random() < 0.1:                             # markers with line breaks / blank edges (no device in between here)
+            extra = rng.choice(["a\nb", "ERR\n", "\nERR", " ERR ", "\t", "\r\n", "$\n^", "x\n.*"])
+            f = [f, extra] if isinstance(f, str) else f + [extra]
+    M = [] if f is None else ([f] if isinstance(f, str) else list(f))
+    outs = []
+    for _ in range(rng.choice([1, 1, 2, 3, 4])):
+        ms = [m for m in M if m]
+        k = rng.random()
+        if not ms or k < 0.1:
+            outs.append(rng.choice(["", "ok", " ", "\n", "row 1\nrow 2"]))
+            continue
+        m = rng.choice(ms)
+        if k < 0.4:
+            x = m
+        elif k < 0.7:
+            good, allc = lookalikes(rng, m)
+            pool = good if (good and rng.random() < 0.75) else (allc or near_misses(rng, m))
+            x = rng.choice(pool) if pool else m
+        elif k < 0.9:
+            nm = near_misses(rng, m)
+            x = rng.choice(nm) if nm else m
+        else:
+            x = "".join(rng.choice(MARKER_ALPHA) for _ in range(rng.randint(0, 12)))
+        outs.append(rng.choice(["", "", "a", " ", "line\n", "x\n  ^ "]) + x + rng.choice(["", "", "z", " ", "\nline", " (detail)"]))
+    return {"fwc": f, "outputs": outs}
+
+
+def run_direct(case):
+    """the real Response / MultiResponse on one (marker set, outputs) case"""
+    from scrapli.response import MultiResponse, Response
+    o = {"exc": None, "flags": [], "results": [], "multi": None}
+    try:
+        multi = MultiResponse()
+        for out in case["outputs"]:
+            r = Response(host="sim", channel_input="x", failed_when_contains=case["fwc"])
+            r.record_response(out.encode("utf-8"))
+            multi.append(r)
+            o["flags"].append(r.failed)
+            o["results"].append(r.result)
+        o["multi"] = multi.failed
+    except Exception as e:  # noqa
+        o["exc"] = type(e).__name__
+    return o
+
+
+def oracle_direct(case, o):
+    f = case["fwc"]
+    M = [] if f is None else ([f] if isinstance(f, str) else list(f))
+    if o["exc"] is not None:
+        return [("response-exception-" + o["exc"], "recording the output %r with the markers %r raised %s" % (
+            case["outputs"][len(o["flags"]):][:1], M, o["exc"]))]
+    bad = []
+    if o["results"] != case["outputs"]:
+        bad.append(("response-result", "the recorded output differs from the bytes given"))
+    want = [any(m in out for m in M) for out in case["outputs"]]
+    for j, (got, w) in enumerate(zip(o["flags"], want)):
+        if got != w:
+            lit = [m for m in M if m in case["outputs"][j]]
+            bad.append(("failed-vs-output", "output %r with the markers %r: failed=%s, but %s" % (
+                case["outputs"][j][:120], [m[:60] for m in M], got,
+                "the marker %r occurs in it" % lit[0][:60] if lit else "no marker occurs in it")))
+            break
+    if not bad and o["multi"] != any(want):
+        bad.append(("multi-failed", "MultiResponse.failed=%s, elements %s" % (o["multi"], o["flags"])))
+    return bad
+
+
+def direct_term(case, o):
+    f = case["fwc"]
+    fwc = "FNone" if f is None else ("(FStr %s)" % u8(f) if isinstance(f, str) else "(FList %s)" % coq_list([u8(x) for x in f]))
+    return "((%s, %s, %s, %s) : dcase)" % (fwc, coq_list([u8(x) for x in case["outputs"]]), coq_list([coq_bool(x) for x in o["flags"]]),
+                                           coq_bool(bool(o["multi"])))
+
+
+def minimise_direct(case, sig):
+    def fails(c):
+        return any(x[0] == sig for x in oracle_direct(c, run_direct(c)))
+    best = case
+    for out in case["outputs"]:
+        c = dict(best, outputs=[out])
+        if fails(c):
+            best = c
+            break
+    f = best["fwc"]
+    if isinstance(f, list) and len(f) > 1:
+        for m in f:
+            for c in (dict(best, fwc=[m]), dict(best, fwc=m)):
+                if fails(c):
+                    return c
+    return best
+
+
+def marker_stats(dist, M, outs):
+    """distribution of the marker stream: what the marker sets and the outputs look like (literal vs pattern reading)"""
+    ms = dist["marker_sets"]
+    ms["sets"] += 1
+    ms["with_metachar"] += any(any(c in META for c in m) for m in M)
+    ms["with_empty_marker"] += any(m == "" for m in M)
+    ms["with_long_marker"] += any(len(m) >= 300 for m in M)
+    ms["with_nested_markers"] += any(a != b and a and a in b for a in M for b in M)
+    ms["not_a_valid_pattern"] += any(_not_pattern(m) for m in M)
+    for out in outs:
+        lit = any(m in out for m in M)
+        pat = any(pattern_accepts(m, out) for m in M if m)
+        key = ("literal" if lit else "not-literal") + "/" + ("pattern-accepts" if pat else "pattern-rejects")
+        ms["outputs"][key] = ms["outputs"].get(key, 0) + 1
+
+
+def _not_pattern(m):
+    import re
+    import warnings
+    try:
+        with warnings.catch_warnings():
+            warnings.simplefilter("ignore")
+            re.compile(m)
+        return False
+    except (re.error, RecursionError, OverflowError):
+        return True
+
+
+# ------------------------------------------------------------------------------------------------
 def jsonable(scn):
     return json.loads(json.dumps(scn))
 
@@ -787,6 +1150,8 @@ def jsonable(scn):
 def minimise(scn, k, workdir, sig):
     """shrink the failing op: drop other ops where the failure survives, then lines"""
     best = {"kind": scn["kind"], "stack": scn["stack"], "policy": scn["policy"], "ops": list(scn["ops"][:k + 1])}
+    if scn.get("driver_markers") is not None:
+        best["driver_markers"] = scn["driver_markers"]
 
     def fails(s):
         try:
@@ -812,6 +1177,19 @@ def minimise(scn, k, workdir, sig):
                 if fails(cand):
                     best, op, changed = cand, op2, True
                     break
+    # the marker set: one marker where one is enough
+    if isinstance(op["fwc"], list) and len(op["fwc"]) > 1:
+        for m in op["fwc"]:
+            cand = dict(best, ops=best["ops"][:-1] + [dict(op, fwc=[m])])
+            if fails(cand):
+                best = cand
+                break
+    elif op["fwc"] is None and len(op.get("dflt") or []) > 1:
+        for m in op["dflt"]:
+            cand = dict(best, driver_markers=[m], ops=[dict(x, dflt=[m]) if x.get("dflt") is not None else x for x in best["ops"]])
+            if fails(cand):
+                best = cand
+                break
     return best
 
 
@@ -838,6 +1216,7 @@ def run(rep):
 
     rng = rep.rng
     thorough = rep.tier == "thorough"
+    LONG_MARKERS.update({"p": 0.07, "sizes": [300, 700, 1500]} if thorough else {"p": 0.03, "sizes": [260, 300, 420]})
     trans = _transition_lines()
     # 1. static part first (Gen_Send.v imports the model's record types), then regenerate from the source
     ok, _ = rep.build_static()
@@ -868,6 +1247,10 @@ def run(rep):
     n_gen = 1500 if thorough else 260
     for _ in range(n_gen):
         scenarios.append(("gen", gen_scenario(rng, trans)))
+    for s in marker_corpus():
+        scenarios.append(("markers", s))
+    for j in range(400 if thorough else 70):
+        scenarios.append(("markers", gen_marker_scenario(rng, trans, kind=KINDS[j % len(KINDS)] if j < 2 * len(KINDS) else None)))
     for _ in range(120 if thorough else 24):
         scenarios.append(("malformed", gen_malformed(rng, trans)))
     ex_kinds = [k for k in KINDS if k not in ("generic",)] if thorough else ["juniper_junos", "cisco_nxos"]
@@ -878,7 +1261,9 @@ def run(rep):
     dist = {"by_stream": {}, "by_kind": {}, "by_op": {}, "by_stack": {}, "lines_hist": {}, "stop": 0, "eager": 0, "policy": {},
             "fwc_kind": {}, "first_failing_pos": {}, "aborts_seen": 0, "unicode_lines": 0, "blank_lines": 0, "long_lines": 0,
             "nav_events": 0, "exceptions": {}, "stalled_calls": 0,
-            "long_multibyte_lines": 0, "repeated_lines": 0, "adjacent_repeats": 0, "max_line_bytes": 0, "line_bytes_hist": {}}
+            "long_multibyte_lines": 0, "repeated_lines": 0, "adjacent_repeats": 0, "max_line_bytes": 0, "line_bytes_hist": {},
+            "marker_sets": {"sets": 0, "with_metachar": 0, "with_empty_marker": 0, "with_long_marker": 0, "with_nested_markers": 0,
+                            "not_a_valid_pattern": 0, "driver_level": 0, "outputs": {}, "failed_flags": {"True": 0, "False": 0}}}
     terms, meta, fails = [], [], []
     t_impl = time.time()
     for stream, scn in scenarios:
@@ -923,6 +1308,11 @@ def run(rep):
                 dist["first_failing_pos"][ff] = dist["first_failing_pos"].get(ff, 0) + 1
             if any(p[1].decode("latin-1").strip() in ABORT_STEPS.get(kind, set()) for p in o["log"]):
                 dist["aborts_seen"] += 1
+            if stream == "markers":
+                marker_stats(dist, call_markers(kind, op, o), [x for l, x in zip(lines, op["outs"]) if dev_key(l)])
+                dist["marker_sets"]["driver_level"] += op["fwc"] is None and op.get("dflt") is not None
+                for fl in (o["flags"] or ([o["merged"][0]] if o["merged"] else [])):
+                    dist["marker_sets"]["failed_flags"][str(bool(fl))] += 1
             rep.case((kind, scn["stack"], json.dumps(op, sort_keys=True)), nontrivial=len(lines) > 1 or bool(o["exc"]))
             if o["starved"]:
                 # the call never came back; decided on what the device had received when the driver stalled
@@ -955,6 +1345,25 @@ def run(rep):
                 pass
     except Exception as e:  # noqa
         rep.notes.append("straddle replay could not run: %r" % (e,))
+    # the response layer alone (real Response / MultiResponse, no device): marker sets as text x outputs of every shape
+    dcases, dterms, dmeta, dfails = [gen_direct(rng) for _ in range(4000 if thorough else 500)], [], [], []
+    ddist = {"sets": 0, "with_metachar": 0, "with_empty_marker": 0, "with_long_marker": 0, "with_nested_markers": 0,
+             "not_a_valid_pattern": 0, "outputs": {}, "failed_flags": {"True": 0, "False": 0}, "exceptions": {}}
+    for dc in dcases:
+        do = run_direct(dc)
+        dbad = oracle_direct(dc, do)
+        for sig, text in dbad:
+            dfails.append((dc, sig, text))
+        f = dc["fwc"]
+        marker_stats({"marker_sets": ddist}, [] if f is None else ([f] if isinstance(f, str) else list(f)), dc["outputs"])
+        for fl in do["flags"]:
+            ddist["failed_flags"][str(bool(fl))] += 1
+        rep.case(("response", json.dumps(dc, sort_keys=True)), nontrivial=len(dc["outputs"]) > 1 or bool(do["exc"]))
+        if do["exc"] is None:
+            dterms.append(direct_term(dc, do))
+            dmeta.append((dc, bool(dbad)))
+        else:
+            ddist["exceptions"][do["exc"]] = ddist["exceptions"].get(do["exc"], 0) + 1
     # 4. model on the same cases
     # (the cases are dealt out so that the parallel Coq shards carry the same weight: very long lines are expensive to read in)
     t_model = time.time()
@@ -966,6 +1375,18 @@ def run(rep):
             resource.setrlimit(resource.RLIMIT_STACK, (want if hard == resource.RLIM_INFINITY else min(want, hard), hard))
     except Exception:  # noqa
         pass
+    # (the response-layer cases are evaluated by their own coqc process while the shards of the main suite run)
+    import threading
+    dres = {}
+
+    def eval_direct():
+        try:
+            dres["r"] = common.eval_cases(rep.workdir, "cases_c13_direct", DIRECT_HEADER, dterms, "dchk", shard=1000)
+        except Exception as e:  # noqa
+            dres["r"] = (None, "response-direct evaluation: %r" % (e,))
+    th = threading.Thread(target=eval_direct)
+    if gen_ok:
+        th.start()
     order, shard = balanced_order([len(t) for t in terms], common.JOBS)
     badix, log = (None, "generated file missing") if not gen_ok else common.eval_cases(
         rep.workdir, "cases_c13", HEADER, [terms[i] for i in order], "chk", shard=shard)
@@ -973,16 +1394,27 @@ def run(rep):
         badix = sorted(order[i] for i in badix)
     rep.coverage["phase_wall_s"] = {"implementation_runs": round(t_impl, 1), "model_evaluation": round(time.time() - t_model, 1),
                                     "case_text_bytes": sum(len(t) for t in terms)}
+    if gen_ok:
+        th.join()
+    dbadix, dlog = dres.get("r", (None, "generated file missing"))
+    rep.coverage["phase_wall_s"]["model_evaluation"] = round(time.time() - t_model, 1)
     rep.coverage["correspondence"] = {"suite": "send-delivery", "cases": len(terms), "distribution": dist,
                                       "model_disagreements": None if badix is None else len(badix),
                                       "oracle_failures": len(fails)}
+    rep.coverage["correspondence_response_layer"] = {"suite": "response-direct", "cases": len(dterms), "distribution": ddist,
+                                                     "model_disagreements": None if dbadix is None else len(dbadix),
+                                                     "oracle_failures": len(dfails)}
     rep.coverage["generated_from"] = common.source_hashes(SOURCES)
     rep.coverage["generated"] = info
     rep.rule = ("ops = send_command(s)/send_config(s)/from-file on generic, network and the five core drivers, sync and asyncio, 1-3 ops per "
                 "connection over SimDevice; lines from a vocabulary + unicode + blanks + repeated lines + very long (ASCII and multi-byte of every "
                 "UTF-8 width, size sweep around powers of two), failing positions sampled and (small lists) "
                 "enumerated, marker sets default / str / list / empty string, stop_on_failed and eager on/off, all configuration levels incl. "
-                "sessions, 5 chunking policies; non-trivial = more than one line or an exception; distinct = (driver, stack, op)")
+                "sessions, 5 chunking policies; marker sets as TEXT (stream 'markers' through the drivers, per call and at driver level, + the "
+                "response layer alone): markers over an alphabet with every regular-expression / glob metacharacter, the vendors' complaints in "
+                "full, markers that are prefixes / suffixes / superstrings / case variants of each other, the empty marker, markers of 260-420 (thorough: up to 1500) "
+                "characters, against outputs that carry a marker literally, a string a pattern reading of the marker accepts, or a near miss; "
+                "non-trivial = more than one line or an exception; distinct = (driver, stack, op)")
     seen = set()
     for scn, k, sig, text in fails:
         if sig in seen:
@@ -1000,6 +1432,25 @@ def run(rep):
         rep.violation("%s %s %s: %s" % (scn["kind"], scn["stack"], scn["ops"][k]["op"], text),
                       {"suite": "send-delivery", "scenario": small, "op": len(small["ops"]) - 1, "signature": sig,
                        "rerun": "./check C13 --replay <this file>"}, signature=sig)
+    dseen = set()
+    for dc, sig, text in sorted(dfails, key=lambda x: len(json.dumps(x[0]))):
+        if sig in dseen:
+            continue
+        dseen.add(sig)
+        small = minimise_direct(dc, sig)
+        text = next((t for sg, t in oracle_direct(small, run_direct(small)) if sg == sig), text)
+        rep.violation("Response.record_response: %s" % text,
+                      {"suite": "response-direct", "case": small, "signature": sig, "rerun": "./check C13 --replay <this file>"},
+                      signature="response-" + sig if not sig.startswith("response-") else sig)
+    if dbadix is None:
+        rep.broken.append("correspondence response-direct (model evaluation failed)")
+        rep.notes.append(dlog)
+    elif dbadix:
+        pure = [ix for ix in dbadix if not dmeta[ix][1]]
+        for ix in dbadix[:5]:
+            rep.notes.append("model/implementation disagreement (response layer): %s" % json.dumps(dmeta[ix][0])[:1500])
+        if pure:
+            rep.broken.append("correspondence response-direct: model differs from implementation on %d case(s)" % len(pure))
     if badix is None:
         rep.broken.append("correspondence send-delivery (model evaluation failed)")
         rep.notes.append(log)
@@ -1077,6 +1528,16 @@ def neighbourhood(scn, k, rng):
 
 def replay(path):
     r = json.load(open(path))
+    if r.get("suite") == "response-direct" and r.get("case"):
+        case = r["case"]
+        o = run_direct(case)
+        print("Response(failed_when_contains=%r).record_response for the outputs %r" % (case["fwc"], [x[:120] for x in case["outputs"]]))
+        print("   outcome: exc=%s flags=%s MultiResponse.failed=%s" % (o["exc"], o["flags"], o["multi"]))
+        bad = oracle_direct(case, o)
+        for sig, text in bad:
+            print("   property FAILS: [%s] %s" % (sig, text))
+        print("property holds on this input" if not bad else "property FAILS on this input")
+        return 1 if bad else 0
     scn = r.get("scenario")
     if not scn:
         print("nothing to replay (no concrete input): %s" % r.get("what"))
@@ -1107,10 +1568,12 @@ def replay(path):
 
 
 MANIFEST = {
-    "text": "Coq theorems (props/C13.v, 26 property theorems, all 'Closed under the global context') over the model of the send paths "
+    "text": "Coq theorems (props/C13.v, 27 property theorems, all 'Closed under the global context') over the model of the send paths "
             "(coq/model/Send.v, Response.v), for ALL line lists, ALL devices (an arbitrary function position x line -> output), marker sets and flags: "
             "C13_delivery_exact / C13_delivery_bytes (send_commands: each line once, in order, byte for byte, one return each, one response per line; "
             "the empty list included), C13_stop_on_failed_prefix (first failing position k => exactly lines 0..k), C13_failed_iff_marker, "
+            "C13_failed_marker_literal (the flag is literal containment and nothing else, with witnesses whose markers are regular-expression "
+            "metacharacters: 'a.c' is not in 'abc'; '(' ; 'E|R' ; 'a*' ; the full IOS complaint with its '^'), "
             "C13_multi_failed_iff_any, C13_net_send_commands / C13_send_configs_delivery / C13_delivery_device (only [navigation] ++ lines; device-side log "
             "= the lines in the target level), C13_send_configs_failed_run / C13_abort_in_session (failed run = [navigation] ++ lines 0..k ++ abort step, "
             "no navigation after the first line; device-side: abort lines logged in the failed session's level) for every abort shape that keeps the level, "
@@ -1130,7 +1593,16 @@ MANIFEST = {
             "encoded length differ (all characters of UTF-8 width 2, 3 or 4, sprinkled, only the first / last character, words), and a sweep of "
             "encoded sizes around the powers of two 256..8192 x character widths through list, multi-line string and file variants on both stacks; "
             "a model/implementation disagreement is searched along failing positions, flags AND line content (longer, multi-byte, both, blank "
-            "edges, repeated lines).",
+            "edges, repeated lines). Failure markers are exercised as TEXT: a stream of scenarios (all seven drivers, both stacks, every op) whose "
+            "marker sets - per call (string or list) and at driver level (failed_when_contains given at construction, modelled as d_markers) - "
+            "are drawn from an alphabet with every regular-expression and glob metacharacter (\\ ^ $ . | ? * + ( ) [ ] { }), from the vendors' "
+            "complaints in full, from strings that are not valid patterns at all, with markers that are prefixes / suffixes / superstrings / case "
+            "variants of each other, the empty marker and markers of 260-420 (thorough tier: up to 1500) characters; the device prints (i) a marker literally, (ii) a string "
+            "that a pattern reading of the marker (regular expression or glob) accepts although the marker is not in it, (iii) near misses (a "
+            "character dropped / changed / doubled, case, blank or line break inserted, reversed); the oracle's expectation is literal containment "
+            "only, a raised exception is a failure, and stop_on_failed / abort are decided on the device's log as everywhere else. The same marker "
+            "sets (plus markers with line breaks and blank edges, outputs with the marker at the very edge, empty outputs) are put to the real "
+            "Response / MultiResponse directly (suite response-direct, model = record_response / multi_failed, replayable).",
     "note": "Proved on the model; the runtime is observed (partial): privilege navigation is abstracted to one event per acquire_priv call (its "
             "content is C04's subject; observed by wrapping acquire_priv on the driver instance, and checked device-side to consist of vendor transitions only), "
             "the channel's echo/prompt reading is C01/C02's subject (the device output per line is an arbitrary function in the theorems and the observed "
@@ -1142,6 +1614,10 @@ MANIFEST = {
             "covered by the model and the theorems (which quantify over all byte lists), not oracle-only; a call that stalls is decided by the oracle "
             "alone (the model has no outcome for it) and a stall inside privilege navigation or after everything was delivered is reported as a harness "
             "failure without input (C01-C04's subject). "
+            "The marker stream is covered by the model (FStr / FList / d_markers are byte lists, infixb is literal) and by C13_failed_iff_marker / "
+            "C13_failed_marker_literal, not oracle-only; its device outputs end every line in a letter, digit or . ) ! ' \" and are read unsplit, because the "
+            "channel removes lines that end like a prompt (# > $ % ~ @ : ]) and rstrips lines (C01/C02's subject), so that what the device printed is what "
+            "the response holds; markers of type bytes are not accepted by the code (str `in` raises TypeError) and are outside the property's domain. "
             "Unknown privilege level names (malformed stream) are model-vs-implementation only. Trusted: Coq kernel + vm_compute, gen/gen_send.py "
             "(AST reading of _abort_config / send_commands), SimDevice and the scripted transports.",
     "technique": "Coq proofs by induction over the line list (loop invariant of the all-but-last loop with break, splitlines scanner invariant, infix/join lemma) "
